@@ -1,9 +1,30 @@
 (* C02 — a pull never loses operations nor breaks an entity. Property theorems only. *)
 From Coq Require Import List Arith NArith Lia Bool.
 Import ListNotations.
-From GB Require Import Reach Sort Read Mono.
+From GB Require Import Reach Sort Read Mono World Sync MergeProps.
 
 Theorem C02_monotone s h h' ops ops' : wf_store s -> reach s h' h ->
   read s h = Some ops -> read s h' = Some ops' -> sublist ops ops'.
 Proof. exact (Mono.C02_monotone s h h' ops ops'). Qed.
 Print Assumptions C02_monotone.
+
+(* fast-forward merge: every operation of the local history, in order, is in the fetched history it adopts *)
+Theorem C02_fast_forward_keeps_everything w h t oh ot : inv w -> is_anc (st w) h t = true ->
+  read (st w) h = Some oh -> read (st w) t = Some ot -> sublist oh ot.
+Proof. exact (ff_keeps_everything w h t oh ot). Qed.
+Print Assumptions C02_fast_forward_keeps_everything.
+
+(* merge commit (both sides have new commits), in every reachable world: the new head is readable and its operations
+   contain those of the local AND of the fetched history, each in its order *)
+Theorem C02_merge_contains_both w r h t id au w' oh ot : inv w -> (budget w + 2 <= jump_limit)%N ->
+  step w (AMerge r h t id au) = Some w' ->
+  read (st w) h = Some oh -> read (st w) t = Some ot ->
+  exists on, read (st w') (length (st w)) = Some on /\ sublist oh on /\ sublist ot on.
+Proof. exact (merge_contains_both w r h t id au w' oh ot). Qed.
+Print Assumptions C02_merge_contains_both.
+
+(* whatever the step (commit, adopt, fast-forward, merge commit, ...), every other history reads as before *)
+Theorem C02_others_untouched w a w' x : inv w -> step w a = Some w' -> (x < length (st w))%nat ->
+  read (st w') x = read (st w) x.
+Proof. exact (merge_leaves_others w a w' x). Qed.
+Print Assumptions C02_others_untouched.
